@@ -136,7 +136,12 @@ pub fn mk_rx(
 }
 
 /// Feed bytes; re-provision any buffer handed back to the caller.
-pub fn feed(out: &mut Out, rx: &mut Rx<DefaultCrc>, bytes: &[u8], extra: Vec<(&str, String)>) -> RxOut {
+pub fn feed<M: dvb_gse_rust::header_extension::MandatoryHeaderExtensionManager>(
+    out: &mut Out,
+    rx: &mut Rx<DefaultCrc, M>,
+    bytes: &[u8],
+    extra: Vec<(&str, String)>,
+) -> RxOut {
     let mut o = rx.ev_decap(out, bytes, extra);
     if let Some(b) = o.returned.take() {
         rx.ev_provision_buf(out, b);
